@@ -23,12 +23,20 @@ VIEWS0 = ["suppliesValue", "totalSupplyValue", "collateralValue", "totalCollater
           "totalBorrowsValue", "supplies", "borrows", "liquidationThreshold", "maxLtv", "ltv", "healthFactor",
           "supplyApy", "borrowApy", "totalApy", "marketBalance"]
 VIEWS1 = ["getSupply", "getBorrow", "maxBorrowAmount"]
+# read-only helpers the Lean state machine has no operation for: executed on the implementation only (oracle: they return the same on
+# warm and on cold caches, and leave every view equal to its from-scratch recomputation)
+HELPERS1 = ["maxWithdrawAmount", "maxRepayAmount"]
 
 
 # ------------------------------------------------------------------------------------------ objects
+TOKEN_DECIMALS = {"USDC": 6, "USDT": 6, "WBTC": 8, "EURS": 2, "GUSD": 2}     # as on chain; everything else 18
+
+
 def token(name):
+    """TokenInfo with the token's real number of decimals (the Aave code must not depend on it: balances are Decimals
+    scaled by the indices, dust is MIN_TOKEN_VALUE for every token)"""
     from demeter import TokenInfo
-    return TokenInfo(name, 18)
+    return TokenInfo(name, TOKEN_DECIMALS.get(name.upper(), 18))
 
 
 _RISK_TEMPLATE = None
@@ -299,6 +307,8 @@ def read_view(m, view, tok=None):
     if view == "getSupply": return m.get_supply(token(tok))
     if view == "getBorrow": return m.get_borrow(token(tok))
     if view == "maxBorrowAmount": return m.get_max_borrow_amount(token(tok))
+    if view == "maxWithdrawAmount": return m.get_max_withdraw_amount(token(tok))
+    if view == "maxRepayAmount": return m.get_max_repay_amount(token(tok))
     raise ValueError(view)
 
 
@@ -320,7 +330,7 @@ def apply_op(m, op, env_next=None):
             r = m.change_collateral(token(op["tok"]), op["coll"])
         elif k == "update":
             r = m.update()
-        elif k == "read":
+        elif k in ("read", "helper"):
             r = read_view(m, op["view"], op.get("tok"))
         elif k == "newBar":
             install_env(m, env_next)
